@@ -180,6 +180,86 @@ Definition step_skip_unfixed (s : sys) (a : act) : sys :=
   match step_unfixed s a with Some s' => s' | None => s end.
 Definition run_unfixed (sched : list act) : sys := fold_left step_skip_unfixed sched sys0.
 
+(* ---------- T1: how the waiter joins the pumps, as read from the source ----------
+   tools/gen/pump_join.py regenerates `gen_pipes_waiter : list wop` (Gen/PumpJoin.v) from run_pipes_task on
+   every run: the waiter's steps in source order.  A pump handle that is awaited plainly (`h.await` as a
+   statement of the function body) is JAwait; a handle that is used in any other way before the terminal
+   emit (handed to a helper, wrapped in timeout(..)/select!, aborted, dropped) is JBounded: the waiter may
+   go on while the pump is still reading — dropping a tokio JoinHandle only detaches the task; a handle that
+   is not used at all between the select and the terminal emit is JNone. *)
+Inductive join_kind := JAwait | JBounded | JNone.
+
+Inductive wop :=
+| WEmitRunning                       (* emitter.emit(ToolTaskStatus { status: Running }) *)
+| WSpawnPump (i : N)                 (* let h = tokio::spawn(pump_output_stream(.. Stdout/Stderr ..)) *)
+| WSelect                            (* select! { child.wait(), cancel_rx.changed() => CancelRequested; kill; wait } *)
+| WJoin (i : N) (k : join_kind)      (* the first use of pump i's handle after its spawn *)
+| WEmitCancelled                     (* emitter.emit(ToolTaskCancelled) *)
+| WEmitFinal.                        (* emitter.emit(ToolTaskStatus { status, .. }) — the terminal frame *)
+
+Definition wop_shape (o : wop) : N :=
+  match o with
+  | WEmitRunning => 0 | WSpawnPump _ => 1 | WSelect => 2 | WJoin _ _ => 3 | WEmitCancelled => 4 | WEmitFinal => 5
+  end.
+
+Record join_spec := { j_p0 : join_kind; j_p1 : join_kind }.
+Definition join_waits (k : join_kind) : bool := match k with JAwait => true | _ => false end.
+Definition join_wf (j : join_spec) : bool := join_waits (j_p0 j) && join_waits (j_p1 j).
+
+Fixpoint after_select (ops : list wop) : list wop :=
+  match ops with [] => [] | WSelect :: r => r | _ :: r => after_select r end.
+Fixpoint before_final (ops : list wop) : list wop :=
+  match ops with [] => [] | WEmitFinal :: _ => [] | o :: r => o :: before_final r end.
+Fixpoint join_kind_in (i : N) (seg : list wop) : join_kind :=
+  match seg with
+  | [] => JNone
+  | WJoin i' k :: r => if i' =? i then k else join_kind_in i r
+  | _ :: r => join_kind_in i r
+  end.
+(* how each pump is joined between the select and the terminal emit *)
+Definition join_spec_of (ops : list wop) : join_spec :=
+  let seg := before_final (after_select ops) in
+  {| j_p0 := join_kind_in 0 seg; j_p1 := join_kind_in 1 seg |}.
+
+Definition has_spawn (i : N) (ops : list wop) : bool :=
+  existsb (fun o => match o with WSpawnPump i' => i' =? i | _ => false end) ops.
+
+(* the waiter the model's `step` describes: Running, both pumps started, the select, both handles awaited
+   unconditionally, the cancelled frame, the terminal frame — in this order *)
+Definition skel_wf (ops : list wop) : bool :=
+  lN_eqb (map wop_shape ops) [0; 1; 1; 2; 3; 3; 4; 5]
+  && has_spawn 0 ops && has_spawn 1 ops
+  && join_wf (join_spec_of ops).
+
+(* the join step for an arbitrary join discipline: the waiter leaves MJoin as soon as every pump it really
+   waits for has returned *)
+Definition pump_joined (k : join_kind) (p : ppc) : bool :=
+  negb (join_waits k) || match p with PDone => true | _ => false end.
+
+Definition step_j (j : join_spec) (s : sys) (a : act) : option sys :=
+  match a with
+  | AJoined =>
+    match s_main s with
+    | MJoin c ok =>
+      if pump_joined (j_p0 j) (s_p0 s) && pump_joined (j_p1 j) (s_p1 s)
+      then Some (set_main s (if c then MCancelEmit ok else MFinal (if ok then 2 else 4)))
+      else None
+    | _ => None end
+  | _ => step s a
+  end.
+Definition step_skip_j (j : join_spec) (s : sys) (a : act) : sys :=
+  match step_j j s a with Some s' => s' | None => s end.
+Definition run_j (j : join_spec) (sched : list act) : sys := fold_left (step_skip_j j) sched sys0.
+(* the system whose waiter is the skeleton read from the source *)
+Definition run_w (ops : list wop) (sched : list act) : sys := run_j (join_spec_of ops) sched.
+
+(* the waiter of the real code today, and the waiter with a bounded wait for the pumps (seed C17-1:
+   `join_pump` = tokio::time::timeout(1 s, handle)) *)
+Definition waiter_canonical : list wop :=
+  [WEmitRunning; WSpawnPump 0; WSpawnPump 1; WSelect; WJoin 0 JAwait; WJoin 1 JAwait; WEmitCancelled; WEmitFinal].
+Definition waiter_bounded : list wop :=
+  [WEmitRunning; WSpawnPump 0; WSpawnPump 1; WSelect; WJoin 0 JBounded; WJoin 1 JBounded; WEmitCancelled; WEmitFinal].
+
 (* a schedule is any list of actions; disabled actions are skipped (so EVERY list is a schedule) *)
 Definition step_skip (s : sys) (a : act) : sys := match step s a with Some s' => s' | None => s end.
 Definition run (sched : list act) : sys := fold_left step_skip sched sys0.
